@@ -49,6 +49,9 @@ def c01(res, tier, deadline):
                 dump_mod=997, label="rel/plain/dispatch-k34"),
             Run("rel", "dispatch", ALL_SHAPES_SMALL, "C01", dump_mod=997,
                 label="rel/plain/dispatch-shapes"),
+            Run("rel", "dispatch", "n=1-5,k=2,d=2,shapes=RR,pres=split|direct,rev=0|1;"
+                "n=1-5,k=1,d=3,shapes=R,pres=split|direct,rev=0|1", "C01", dump_mod=997,
+                label="rel/plain/dispatch-incremental-registration"),
         ]
         for tag in ("dbg", "map", "ind", "thr", "int"):
             runs.append(Run(tag, "dispatch",
@@ -83,14 +86,14 @@ def c02(res, tier, deadline):
                                   "of exactly the virtual arguments), exception reaches the caller, "
                                   "a later call still dispatches; handler-returns => SIGABRT in a "
                                   "forked child.")
-    res.assumptions = COMMON_ASSUMPTIONS + [
-        "for virtual_ptr parameters the reported id is not compared (the library reports the id of the virtual_ptr specialisation; 'dynamic type of the argument' is ambiguous there)"]
+    res.assumptions = COMMON_ASSUMPTIONS
     n = "1-5" if tier == "quick" else "1-5"
     runs = []
     sp = ("n=%s,k=2,d=3,shapes=RR;n=1-5,k=1,d=3,shapes=R;n=1-3,k=2,d=2,shapes=allRN;"
           "n=1-4,k=1,d=2,shapes=allRN;"
           "n=1-3,k=3,d=2,shapes=allRN;n=1-2,k=4,d=1,shapes=allRN;"
-          "n=1-3,k=2,d=2,shapes=PP|SR|RC;n=1-3,k=1,d=2,shapes=P|S|C|NP" % n)
+          "n=1-3,k=2,d=2,shapes=PP|SR|RC|VV|RV|VR|WV|XX;n=1-3,k=1,d=2,shapes=P|S|C|NP|V|W|X|VN;"
+          "n=1-3,k=3,d=1,shapes=PNV|RNV|VNR|VRP" % n)
     if tier != "quick":
         sp += ";n=6,k=1,d=3,shapes=R;n=1-4,k=3,d=2,shapes=RRR|RNRNR;n=1-3,k=4,d=2,shapes=RRRR"
     for tag in ("rel", "dbg", "thr", "map"):
@@ -168,12 +171,17 @@ def c06(res, tier, deadline):
     if tier == "quick":
         runs = [Run("rel", "perm", "n=1-4,k=2,d=2,shapes=RR,cperm=all,brot=1;"
                     "n=1-4,k=2,d=3,shapes=RR,cperm=rev;n=5,k=2,d=3,shapes=RR,cperm=rev"),
-                Run("int", "perm", "n=1-4,k=2,d=2,shapes=RR,cperm=all;n=1-4,k=1,d=3,shapes=R,cperm=all")]
+                Run("int", "perm", "n=1-4,k=2,d=2,shapes=RR,cperm=all;n=1-4,k=1,d=3,shapes=R,cperm=all"),
+                Run("rel", "perm", "n=1-4,set=UUB,d=1,cperm=all,pres=full|direct;n=5,set=UUB,d=1,cperm=rev,pres=direct",
+                    label="rel/plain/perm-method-sets")]
     else:
         runs = [Run("rel", "perm", "n=1-4,k=2,d=3,shapes=RR,cperm=all,brot=1;"
                     "n=5,k=2,d=3,shapes=RR,cperm=rot;n=5,k=2,d=2,shapes=RR,cperm=all;"
                     "n=1-4,k=3,d=2,shapes=RRR,cperm=all"),
-                Run("int", "perm", "n=1-4,k=2,d=3,shapes=RR,cperm=all;n=1-5,k=1,d=3,shapes=R,cperm=all")]
+                Run("int", "perm", "n=1-4,k=2,d=3,shapes=RR,cperm=all;n=1-5,k=1,d=3,shapes=R,cperm=all"),
+                Run("rel", "perm", "n=1-4,set=UUB,d=1,cperm=all,pres=full|direct|split;n=1-4,set=UBT,d=1,cperm=all,pres=direct;"
+                    "n=5,set=UUB,d=1,cperm=rot,pres=direct",
+                    label="rel/plain/perm-method-sets")]
     e1.execute(res, runs, deadline_total=deadline, second_oracle=False)
     res.states = res.counters_sum("permutations") or res.states
     res.traces = res.states
@@ -230,7 +238,7 @@ def c17(res, tier, deadline):
 def c10(res, tier, deadline):
     res.rule = ("the same registries (spaces as in C01) under each RTTI flavour: std_rtti (rel), "
                 "integer ids with identity projection without hash (int), two ids per class with "
-                "type_index(id)=id/2 with (prj) and without (prn) hash, deferred ids without (dfr) "
+                "type_index(id)=id/2 with fast (prj), checked (prc) and without (prn) hash, deferred ids without (dfr) "
                 "and with (dfh) hash; each followed by a second update on the same registrations. "
                 "For prj/prn every assignment of aliases to every use of a class id (records, base "
                 "lists, method and definition parameters; all 2^uses up to a limit, 6 patterns "
@@ -254,7 +262,7 @@ def c10(res, tier, deadline):
         fl = ("n=1-2,k=2,d=2,shapes=RR,limit=12;n=1-3,k=1,d=2,shapes=R|V,limit=10;"
               "n=3,k=2,d=2,shapes=RR,limit=8;n=4-5,k=2,d=2,shapes=RR,limit=0;"
               "n=1-4,k=3,d=2,shapes=RRR,limit=0")
-    for tag in ("prj", "prn"):
+    for tag in ("prj", "prn", "prc"):
         runs.append(Run(tag, "flavour", fl, "C01,C03", extra="reupdate=1",
                         label="%s/plain/flavour" % tag))
     e1.execute(res, runs, deadline_total=deadline)
